@@ -619,6 +619,7 @@ def merge_common(ctx):
     'C05': 'when an entry survives with a reduced clock, what the other side removed under that key must be reset in the nested value',
     'C03': 'op delivery of the key remove would have reset the nested value',
     'C09': 'nested data removed under a key must not come back when a stale copy of the entry is merged in',
+    'C02': 'merge of nested maps is a join only if both orders reset the nested value with the same clock: a+b and b+a must read alike',
 }, floor=3)
 def map_reset_pair(ctx):
     """Map::merge: in each of the three branches that keep an entry with a reduced clock, the nested value is
